@@ -145,7 +145,7 @@ SHUT_RULE = ("family shut: a real VhostUserDaemon (1 or 2 workers, exit events s
              "exercised with clean, partial-header and invalid-request peers. Judged by Spec/ShutSpec.v")
 SHUT_TB = ["hand model Model/Shutdown.v of lib.rs (daemon thread loop, ShutdownHandle, wait classification), tied by family shut",
            "Spec/ShutSpec.v: my transcription of C16 outcomes", "socket shutdown(2)/EPIPE semantics of AF_UNIX stream sockets (kernel)"]
-reg(id="C16", props="Props/C16.v", proof_files=["Proofs/ShutBase.v", "Proofs/ShutProofs.v"], families=[Shut()], rule=SHUT_RULE, trusted_base=SHUT_TB,
+reg(id="C16", props="Props/C16.v", proof_files=["Proofs/ShutBase.v", "Proofs/ShutProofs.v", "Proofs/LifeProofs.v"], families=[Shut()], rule=SHUT_RULE, trusted_base=SHUT_TB,
     assumptions=["a blocked recvmsg returns 0 after shutdown(SHUT_RDWR) on the same socket; sendmsg on it fails with EPIPE", "thread join returns the thread's result"])
 KERN_RULE = ("family kern: every trait operation of Vsock, Net and VhostKernVdpa on a dummy descriptor with ioctl (and open of /dev/vhost-*) interposed in the "
              "harness binary: queue indexes up to 2^32+, 64-bit boundary values, region tables of 0..300 entries, config buffers of 0..256 bytes, IOTLB map/unmap "
